@@ -247,6 +247,7 @@ func init() {
 			{Name: "small", QShards: 4, TShards: 12, Run: c08Small},
 			{Name: "random", QShards: 2, TShards: 8, Run: c08Random},
 			{Name: "shipped", TShards: 4, Run: c08Shipped},
+			{Name: "reuse", TShards: 4, Run: func(c *Ctx) { alignReuse(c, alignOpts{validity: true}, 0) }},
 		},
 	})
 	register(&Property{
@@ -264,6 +265,7 @@ func init() {
 			{Name: "levenshtein", TShards: 2, Run: c09Levenshtein},
 			{Name: "shipped", TShards: 4, Run: c09Shipped},
 			{Name: "tables", Run: c09Tables},
+			{Name: "reuse", TShards: 4, Run: func(c *Ctx) { alignReuse(c, alignOpts{validity: true, optimal: true}, 1) }},
 		},
 	})
 	register(&Property{
@@ -279,6 +281,7 @@ func init() {
 			{Name: "small", QShards: 4, TShards: 12, Run: c10Small},
 			{Name: "random", QShards: 2, TShards: 8, Run: c10Random},
 			{Name: "witnesses", Run: c10Witnesses},
+			{Name: "reuse", TShards: 4, Run: func(c *Ctx) { alignReuse(c, alignOpts{validity: true, optimal: true, knownC10: true}, 2) }},
 		},
 	})
 }
@@ -583,4 +586,72 @@ func fnvSum(parts []string) uint64 {
 		h *= 1099511628211
 	}
 	return h
+}
+
+// alignReuse keeps ONE matrix object per case and edits its scores in place
+// between calls (same keys, same map), as a user tuning penalties would: state
+// cached inside the library per matrix object would go stale here. mode 0: any
+// gap-open (C08), 1: zero gap-open (C09), 2: non-zero gap-open (C10).
+func alignReuse(c *Ctx, o alignOpts, mode int) {
+	n := c.N(300, 12000)
+	for i := 0; i < n; i++ {
+		c.Case(int64(i), func(k *K) {
+			r := k.Rand()
+			alpha := []byte("acgt")[:2+r.IntN(3)]
+			sp := matSpec{alpha: alpha, gapSign: -1, sym: r.IntN(2) == 0}
+			switch mode {
+			case 0:
+				sp.gapOpen = pick(r, []float64{0, -1, -3})
+			case 1:
+				sp.gapOpen = 0
+			default:
+				sp.gapOpen = pick(r, []float64{-1, -2, -3, -7})
+			}
+			m := genAlignMatrix(r, sp)
+			keys := make([][2]byte, 0, len(m))
+			for key := range m {
+				keys = append(keys, key)
+			}
+			sortKeys(keys)
+			a, b := relatedPair(r, alpha, 16)
+			for round := 0; round < 8; round++ {
+				// edit a few scores in place (never the gap-open cell's sign class)
+				for e := 1 + r.IntN(4); e > 0; e-- {
+					key := keys[r.IntN(len(keys))]
+					switch {
+					case key[0] == gapB && key[1] == gapB:
+						if mode == 2 {
+							m[key] = pick(r, []float64{-1, -2, -3, -7})
+						} else if mode == 0 {
+							m[key] = pick(r, []float64{0, -1, -3})
+						}
+					case key[0] == gapB || key[1] == gapB:
+						m[key] = -float64(r.IntN(7))
+					default:
+						m[key] = float64(r.IntN(13) - 6)
+					}
+				}
+				if r.IntN(3) == 0 {
+					a, b = relatedPair(r, alpha, 16)
+				}
+				k.Input("round", round)
+				k.Input("a", a)
+				k.Input("b", b)
+				k.Input("matrix", matrixString(m))
+				oo := o
+				oo.local = true
+				alignCase(k, a, b, m, oo)
+				k.Count("reuse_rounds", 1)
+				k.Evals(1)
+				if k.Failed() {
+					return
+				}
+			}
+			k.Nontrivial(a, b, []byte(matrixString(m)))
+		})
+	}
+}
+
+func sortKeys(keys [][2]byte) {
+	sort.Slice(keys, func(i, j int) bool { return bytes.Compare(keys[i][:], keys[j][:]) < 0 })
 }
